@@ -25,6 +25,7 @@ import (
 	"go/token"
 	"os"
 	"path/filepath"
+	"regexp"
 	"strconv"
 	"strings"
 )
@@ -34,6 +35,36 @@ const hookPkg = "github.com/smart-core-os/sc-golang/internal/simhook"
 func main() {
 	repo, out := os.Args[1], os.Args[2]
 	res := map[string]string{}
+	// functions and methods started with a go statement (`go s.pump(x)`), per directory, by name: they get the same
+	// treatment as goroutine literals (a yield as first statement, yields at the top of their loops)
+	goCalled := map[string]map[string]bool{}
+	goStmt := regexp.MustCompile(`(?m)^\s*go\s+([A-Za-z_][A-Za-z0-9_.]*)\(`)
+	for _, root := range []string{"pkg", "internal"} {
+		_ = filepath.Walk(filepath.Join(repo, root), func(path string, info os.FileInfo, err error) error {
+			if err != nil || info.IsDir() || !strings.HasSuffix(path, ".go") || strings.HasSuffix(path, "_test.go") {
+				return nil
+			}
+			src, err := os.ReadFile(path)
+			if err != nil {
+				return nil
+			}
+			for _, m := range goStmt.FindAllSubmatch(src, -1) {
+				name := string(m[1])
+				if name == "func" {
+					continue
+				}
+				if i := strings.LastIndex(name, "."); i >= 0 {
+					name = name[i+1:]
+				}
+				dir := filepath.Dir(path)
+				if goCalled[dir] == nil {
+					goCalled[dir] = map[string]bool{}
+				}
+				goCalled[dir][name] = true
+			}
+			return nil
+		})
+	}
 	for _, root := range []string{"pkg", "internal"} {
 		_ = filepath.Walk(filepath.Join(repo, root), func(path string, info os.FileInfo, err error) error {
 			if err != nil {
@@ -50,10 +81,11 @@ func main() {
 				return nil
 			}
 			src, err := os.ReadFile(path)
-			if err != nil || !(bytes.Contains(src, []byte("Lock()")) || bytes.Contains(src, []byte("go func")) || bytes.Contains(src, []byte("select {")) || bytes.Contains(src, []byte("<-"))) {
+			called := goCalled[filepath.Dir(path)]
+			if err != nil || !(len(called) > 0 || bytes.Contains(src, []byte("Lock()")) || bytes.Contains(src, []byte("go func")) || bytes.Contains(src, []byte("select {")) || bytes.Contains(src, []byte("<-"))) {
 				return nil
 			}
-			if rewritten, n := rewrite(rel, src); n > 0 {
+			if rewritten, n := rewrite(rel, src, called); n > 0 {
 				dst := filepath.Join(out, strings.ReplaceAll(rel, "/", "__"))
 				if err := os.WriteFile(dst, rewritten, 0o644); err != nil {
 					fmt.Fprintln(os.Stderr, err)
@@ -68,7 +100,7 @@ func main() {
 	fmt.Println(string(b))
 }
 
-func rewrite(rel string, src []byte) ([]byte, int) {
+func rewrite(rel string, src []byte, goCalled map[string]bool) ([]byte, int) {
 	fset := token.NewFileSet()
 	f, err := parser.ParseFile(fset, rel, src, parser.ParseComments)
 	if err != nil {
@@ -185,38 +217,45 @@ func rewrite(rel string, src []byte) ([]byte, int) {
 		}
 		return true
 	})
-	// goroutine literals: a yield as first statement, and at the top of every loop inside them
+	// goroutine bodies: a yield as first statement, and at the top of every loop inside them
+	goBody := func(body *ast.BlockStmt, at token.Pos) {
+		if len(body.List) == 0 || !isHookCall(body.List[0]) {
+			body.List = append([]ast.Stmt{yield("go", at)}, body.List...)
+			n++
+		}
+		ast.Inspect(body, func(inner ast.Node) bool {
+			var lb *ast.BlockStmt
+			switch l := inner.(type) {
+			case *ast.ForStmt:
+				lb = l.Body
+			case *ast.RangeStmt:
+				lb = l.Body
+			case *ast.FuncLit:
+				return false // loops of nested function literals are not the goroutine's own
+			}
+			if lb != nil && (len(lb.List) == 0 || !isHookCall(lb.List[0])) {
+				lb.List = append([]ast.Stmt{yield("loop", inner.Pos())}, lb.List...)
+				n++
+			}
+			return true
+		})
+	}
 	ast.Inspect(f, func(node ast.Node) bool {
 		gs, ok := node.(*ast.GoStmt)
 		if !ok {
 			return true
 		}
-		lit, ok := gs.Call.Fun.(*ast.FuncLit)
-		if !ok || lit.Body == nil {
-			return true
+		if lit, ok := gs.Call.Fun.(*ast.FuncLit); ok && lit.Body != nil {
+			goBody(lit.Body, gs.Pos())
 		}
-		if len(lit.Body.List) == 0 || !isHookCall(lit.Body.List[0]) {
-			lit.Body.List = append([]ast.Stmt{yield("go", gs.Pos())}, lit.Body.List...)
-			n++
-		}
-		ast.Inspect(lit.Body, func(inner ast.Node) bool {
-			var body *ast.BlockStmt
-			switch l := inner.(type) {
-			case *ast.ForStmt:
-				body = l.Body
-			case *ast.RangeStmt:
-				body = l.Body
-			case *ast.FuncLit:
-				return l == lit // loops of nested function literals are not the goroutine's own
-			}
-			if body != nil && (len(body.List) == 0 || !isHookCall(body.List[0])) {
-				body.List = append([]ast.Stmt{yield("loop", inner.Pos())}, body.List...)
-				n++
-			}
-			return true
-		})
 		return true
 	})
+	// functions and methods of this package that are started with a go statement somewhere in it (matched by name)
+	for _, d := range f.Decls {
+		if fd, ok := d.(*ast.FuncDecl); ok && fd.Body != nil && goCalled[fd.Name.Name] {
+			goBody(fd.Body, fd.Pos())
+		}
+	}
 	if n == 0 {
 		return nil, 0
 	}
